@@ -37,6 +37,54 @@ class _Sink:
                                                           file_bytes, eof, mime_type, route_code, timestamp)]])
 
 
+class _Fault(Exception):
+    """raised by a scripted sink"""
+
+
+class _ScriptedSink:
+    """recording sink of the main router.  When the router calls one of its methods (not from inside another sink's
+    method) it performs the next entry of its script for that method: re-entrant router.add_rule(...) calls and/or raise."""
+
+    def __init__(self, n, ctx):
+        self.n, self.ctx = n, ctx
+
+    def _call(self, kind, ev):
+        ctx = self.ctx
+        nested = ctx['depth'] > 0
+        ctx['log'].append(['del', self.n, ev, nested])
+        if nested:
+            return
+        entries = ctx['scripts'].get((self.n, kind))
+        if not entries:
+            return
+        acts = entries.pop(0)
+        ctx['depth'] += 1
+        try:
+            for act in acts:
+                if act == 'raise':
+                    ctx['log'].append(['exc', 'Fault'])
+                    raise _Fault()
+                ctx['log'].append(['radd', act])
+                try:
+                    ctx['add'](act)
+                except (TypeError, ValueError) as e:
+                    ctx['log'].append(['exc', type(e).__name__])
+                    raise
+        finally:
+            ctx['depth'] -= 1
+
+    def startTestRun(self):
+        self._call('start', 'start')
+
+    def stopTestRun(self):
+        self._call('stop', 'stop')
+
+    def status(self, test_id=None, test_status=None, test_tags=None, runnable=True, file_name=None, file_bytes=None,
+               eof=False, mime_type=None, route_code=None, timestamp=None):
+        self._call('status', ['status', S.canon_event(self.ctx['clock'], test_id, test_status, test_tags, runnable, file_name,
+                                                        file_bytes, eof, mime_type, route_code, timestamp)])
+
+
 class _ListQueue:
     def __init__(self):
         self.items = []
@@ -53,9 +101,15 @@ class C18(Prop):
             '(also repeated or missing), add_rule for route prefixes over {0,1,ab,zz} (consume on/off, flag on/off, re-registration of a prefix, 3% with a "/" '
             'in the prefix), add_rule for test ids incl. None (re-registration), 2% unknown policy, status events with route None or 1-4 segments (3% with an '
             'empty segment) x 3 test ids/None x other fields, and round trips through 1-3 StreamToQueue codes popped by as many fresh consuming routers. '
-            'thorough adds all configurations with <= 2 rules x <= 3 events from a 6-event alphabet, with start/stop around or across the rules. '
+            'In half of the cases 1-3 sinks have scripted behaviour at their 1st/2nd startTestRun / stopTestRun / status: they call router.add_rule '
+            're-entrantly (with/without do_start_stop_run; fresh or already known sink; 4% bad prefix, 3% unknown policy) and/or raise; the driver '
+            'survives every exception and carries on with the script. '
+            'thorough adds all configurations with <= 2 rules x <= 3 events from a 6-event alphabet, with start/stop around or across the rules, and '
+            'every pair of one-act behaviours (7 kinds) at start/stop/status of the fallback and a rule sink over 5 histories. '
             'non-trivial = at least one rule and one status event, or a round trip; distinct = distinct input S-expression')
-    assumptions = ['Python dict semantics of the two rule tables are modelled by association lists (re-registration overwrites)',
+    assumptions = ['a scripted sink behaves plainly (records only) when it is called from inside a re-entrant add_rule, i.e. the immediate startTestRun of a rule added by another sink\'s method while a run is in progress; nesting of scripted behaviour is therefore one level deep',
+                   'Python list iteration over a list that grows (for sink in self._sinks) is modelled by an index loop over the live list, with a fuel bound proved sufficient',
+                   'Python dict semantics of the two rule tables are modelled by association lists (re-registration overwrites)',
                    'str.split("/")[0] and slicing are modelled on lists of characters',
                    'round trips are driven by the harness: it takes the dict StreamToQueue put on its queue and calls the next stage with it, as ConcurrentStreamTestSuite does']
 
@@ -65,7 +119,11 @@ class C18(Prop):
                 'segment of its route code if there is one, else the latest rule of its test id, else the fallback, else the call raises and nothing is delivered - '
                 'with every field but route_code unchanged, a consuming rule stripping exactly the first segment (None when nothing remains); for every "/"-free code '
                 'and every route code (None or any string) consume(code, prefix(code, rc)) = rc, nested to any depth; startTestRun/stopTestRun reach exactly the '
-                'registered sinks once per call, a rule added mid-run with the flag is started at once, one without the flag never. The hand-written model is tied to '
+                'registered sinks once per call - also sinks registered re-entrantly by another sink from inside its startTestRun/stopTestRun while the dispatch is under '
+                'way: each registration is reached exactly once by that dispatch and is not started by add_rule itself unless a run is in progress (the flag is set only '
+                'after the dispatch loop has completed); a sink that raises ends the dispatch there (later sinks are not called, the flag is unchanged, the exception '
+                'reaches the driver); in histories without exceptions, nested runs or double registrations every sink sees startTestRun/stopTestRun strictly alternating '
+                'beginning with a start; a rule added mid-run with the flag is started at once, one without the flag never. The hand-written model is tied to '
                 'the code by a differential check over operation scripts.',
         'note': 'trusted: Lean kernel, the model TTV/Model/StreamRouter.lean, the harness; dicts modelled as association lists, strings as character lists',
         'technique': 'Lean 4 invariant proof over operation histories (model dictionaries = latest registration in the history) plus list lemmas for the push/pop inverse; '
@@ -78,43 +136,58 @@ class C18(Prop):
     # ----- implementation side
     def run_impl(self, inp):
         from testtools import StreamResultRouter, StreamToQueue
-        has_fb, fb_flag, ops = inp
+        has_fb, fb_flag, ops = inp[:3]
+        scripts = inp[3] if len(inp) > 3 else []
         try:
             clock = S.Clock()
-            log = []
+            ctx = {'log': [], 'depth': 0, 'clock': clock, 'scripts': {}}
+            for n, kind, entries in scripts:
+                ctx['scripts'].setdefault((n, kind), [list(e) for e in entries])
             sinks = {}
 
             def sink(n):
                 if n not in sinks:
-                    sinks[n] = _Sink(n, log, clock)
+                    sinks[n] = _ScriptedSink(n, ctx)
                 return sinks[n]
             router = StreamResultRouter(sink(0) if has_fb else None, do_start_stop_run=fb_flag)
-            results = []
+
+            def add(op):
+                if op[0] == 'prefix':
+                    router.add_rule(sink(op[1]), 'route_code_prefix', route_prefix=''.join(map(chr, op[2])), consume_route=op[3],
+                                    do_start_stop_run=op[4])
+                elif op[0] == 'id':
+                    router.add_rule(sink(op[1]), 'test_id', test_id=None if op[2] is None else S.test_id(op[2][1]),
+                                    do_start_stop_run=op[3])
+                elif op[0] == 'bad':
+                    router.add_rule(sink(op[1]), 'no-such-policy', do_start_stop_run=op[2])
+                else:
+                    raise AssertionError(op)
+            ctx['add'] = add
+            results, segments = [], []
             for op in ops:
+                mark = len(ctx['log'])
                 try:
                     if op == 'start':
                         router.startTestRun()
                     elif op == 'stop':
                         router.stopTestRun()
-                    elif op[0] == 'prefix':
-                        router.add_rule(sink(op[1]), 'route_code_prefix', route_prefix=''.join(map(chr, op[2])), consume_route=op[3],
-                                        do_start_stop_run=op[4])
-                    elif op[0] == 'id':
-                        router.add_rule(sink(op[1]), 'test_id', test_id=None if op[2] is None else S.test_id(op[2][1]),
-                                        do_start_stop_run=op[3])
-                    elif op[0] == 'bad':
-                        router.add_rule(sink(op[1]), 'no-such-policy', do_start_stop_run=op[2])
+                    elif op[0] in ('prefix', 'id', 'bad'):
+                        add(op)
                     elif op[0] == 'status':
                         router.status(**S.event_kwargs(op[1]))
                     elif op[0] == 'trip':
                         results.append(self.trip(clock, [''.join(map(chr, c)) for c in op[1]], S.event_kwargs(op[2])))
+                        segments.append([])
                         continue
                     else:
                         raise AssertionError(op)
                     results.append('ok')
-                except (AttributeError, TypeError, ValueError) as e:
-                    results.append(['raised', type(e).__name__])
-            return [log, results]
+                except (AttributeError, TypeError, ValueError, _Fault) as e:
+                    results.append(['raised', 'Fault' if isinstance(e, _Fault) else type(e).__name__])
+                if ctx['depth'] != 0:
+                    return ['raised', 'harness-depth']
+                segments.append(ctx['log'][mark:])
+            return [segments, results]
         except Exception as e:
             return ['raised', type(e).__name__]
 
@@ -182,7 +255,47 @@ class C18(Prop):
         pos = sorted(rng.randrange(len(ops) + 1) for _ in ctl)
         for k, (p, c) in enumerate(zip(pos, ctl)):
             ops.insert(p + k, c)
-        return [rng.random() < 0.7, rng.random() < 0.7, ops]
+        has_fb, fb_flag = rng.random() < 0.7, rng.random() < 0.7
+        return [has_fb, fb_flag, ops, self.gen_scripts(rng, has_fb, ops, fb_flag) if rng.random() < 0.5 else []]
+
+    def gen_act(self, rng, fresh, known):
+        if rng.random() < 0.25:
+            return 'raise'
+        sink = next(fresh) if rng.random() < 0.9 or not known else rng.choice(known)
+        r = rng.random()
+        flag = rng.random() < 0.7
+        if r < 0.5:
+            p = rng.choice(SEGS)
+            if rng.random() < 0.04:
+                p = p + '/x'
+            return ['prefix', sink, chars(p), rng.random() < 0.6, flag]
+        if r < 0.97:
+            return ['id', sink, rng.choice([None, ['some', 0], ['some', 2]]), flag]
+        return ['bad', sink, flag]
+
+    def gen_scripts(self, rng, has_fb, ops, fb_flag=True):
+        """scripted behaviour for 1-3 sinks: at their 1st/2nd startTestRun / stopTestRun / status they add rules re-entrantly and/or raise"""
+        known = ([0] if has_fb else []) + [o[1] for o in ops if isinstance(o, list) and o[0] in ('prefix', 'id')]
+        if not known:
+            return []
+        fresh = itertools.count(100)
+        scripts, used = [], set()
+        for _ in range(rng.choice([1, 1, 2, 3])):
+            kind = rng.choice(['start', 'start', 'start', 'stop', 'stop', 'status'])
+            pool = known + ([100, 101] if rng.random() < 0.3 else [])
+            if kind != 'status' and rng.random() < 0.8:
+                # sinks that are registered for start/stop are the ones whose start/stop scripts can fire
+                flagged = ([0] if has_fb and fb_flag else []) + [o[1] for o in ops if isinstance(o, list) and o[0] in ('prefix', 'id') and o[-1]]
+                pool = flagged or pool
+            key = (rng.choice(pool), kind)
+            if key in used:
+                continue
+            used.add(key)
+            entries = []
+            for _ in range(rng.choice([1, 1, 2])):
+                entries.append([self.gen_act(rng, fresh, known) for _ in range(rng.choice([0, 1, 1, 1, 2]))])
+            scripts.append([key[0], key[1], entries])
+        return scripts
 
     def enumerate(self, tier):
         events = [ev(0, 'success'), ev(1, 'fail', route='0'), ev(0, None, route='0/1'), ev(None, 'inprogress', route='1/0/ab'),
@@ -204,17 +317,37 @@ class C18(Prop):
                                 ops = ['start'] + rs + sts + ['stop']
                             else:
                                 ops = rs[:1] + ['start'] + sts[:1] + rs[1:] + sts[1:] + ['stop'] + sts[:1]
-                            yield [shape != 1 or nr != 1, shape != 2, ops]
+                            yield [shape != 1 or nr != 1, shape != 2, ops, []]
+        # scripted sinks: every pair of one-act behaviours at the first startTestRun / stopTestRun of the fallback and of a rule sink
+        acts = [[], ['raise'], [['id', 20, ['some', 1], True]], [['prefix', 21, chars('0'), True, True]], [['id', 22, None, False]],
+                [['id', 23, ['some', 0], True], 'raise'], [['id', 24, ['some', 0], True], ['prefix', 25, chars('1'), False, True]]]
+        histories = [['start', ['status', events[1]], 'stop'], [['id', 10, ['some', 0], True], 'start', ['status', events[0]], 'stop', 'start', 'stop'],
+                     ['start', ['id', 10, ['some', 0], True], ['status', events[0]], 'stop'], ['start', 'stop', 'stop', 'start'],
+                     [['prefix', 10, chars('0'), True, True], 'start', 'start', ['status', events[1]], 'stop']]
+        for h in histories:
+            for who in (0, 10):
+                for a1 in acts:
+                    for a2 in acts:
+                        for k1, k2 in (('start', 'stop'), ('start', 'status'), ('stop', 'status')):
+                            yield [True, True, h, [[who, k1, [a1, a2]], [0 if who else 10, k2, [a2]]]]
 
     # ----- evidence
     def nontrivial(self, inp, trace):
         ops = inp[2]
         kinds = [o if isinstance(o, str) else o[0] for o in ops]
+        if len(inp) > 3 and inp[3] and trace and trace[0] != 'raised' and any(d[0] in ('radd', 'exc') for seg in trace[0] for d in seg):
+            return True
         return ('status' in kinds and ('prefix' in kinds or 'id' in kinds)) or 'trip' in kinds
 
     def features(self, inp, trace):
-        has_fb, fb_flag, ops = inp
+        has_fb, fb_flag, ops = inp[:3]
+        scripts = inp[3] if len(inp) > 3 else []
         f = {'fallback:' + ('none' if not has_fb else 'flagged' if fb_flag else 'unflagged')}
+        f.add('scripts=%d' % len(scripts))
+        for n, kind, entries in scripts:
+            for acts in entries:
+                for a in acts:
+                    f.add('script:%s:%s' % (kind, 'raise' if a == 'raise' else 'add-flag' if a[-1] else 'add-noflag'))
         kinds = [o if isinstance(o, str) else o[0] for o in ops]
         f.add('rules=%d' % sum(k in ('prefix', 'id') for k in kinds))
         f.add('events=%d' % kinds.count('status'))
@@ -248,17 +381,36 @@ class C18(Prop):
             for r in trace[1]:
                 if isinstance(r, list) and r[0] == 'raised':
                     f.add('raises:' + r[1])
-            dest = {d[0] for d in trace[0] if isinstance(d[1], list)}
+            dest = {d[1] for seg in trace[0] for d in seg if d[0] == 'del' and isinstance(d[2], list)}
             if 0 in dest:
                 f.add('delivered-to-fallback')
             if dest - {0}:
                 f.add('delivered-to-rule-sink')
+            for o, seg, r in zip(ops, trace[0], trace[1]):
+                k = o if isinstance(o, str) else o[0]
+                if any(d[0] == 'radd' for d in seg):
+                    f.add('reentrant-add-during-' + k)
+                if any(d[0] == 'del' and d[3] for d in seg):
+                    f.add('immediate-start-of-reentrant-rule-during-' + k)
+                if k in ('start', 'stop') and r != 'ok':
+                    f.add('aborted-%s-dispatch' % k)
         if trace and trace[0] == 'raised':
             f.add('raised:' + trace[1])
         return sorted(f)
 
     def shrink(self, inp):
-        has_fb, fb_flag, ops = inp
+        has_fb, fb_flag, ops = inp[:3]
+        scripts = inp[3] if len(inp) > 3 else []
+        for j in range(len(scripts)):
+            yield [has_fb, fb_flag, ops, scripts[:j] + scripts[j + 1:]]
+            n, kind, entries = scripts[j]
+            for a in range(len(entries)):
+                for b in range(len(entries[a])):
+                    yield [has_fb, fb_flag, ops, scripts[:j] + [[n, kind, entries[:a] + [entries[a][:b] + entries[a][b + 1:]] + entries[a + 1:]]] + scripts[j + 1:]]
+        for x in self.shrink_ops(has_fb, fb_flag, ops):
+            yield x + [scripts]
+
+    def shrink_ops(self, has_fb, fb_flag, ops):
         for i in range(len(ops)):
             yield [has_fb, fb_flag, ops[:i] + ops[i + 1:]]
         for i, o in enumerate(ops):
